@@ -11,6 +11,12 @@
       num     how the code writes an index: Go [int] on the server, a float64 after JSON
       as_num  [x.(float64)] holding an integral value (merge.uncompressIndices)
       fix4    which diffMap is modelled (see below); not an operation on atoms, but it travels with them
+      guide   [None]: the index list of a list diff is computed as diff.computeReorderIndices does.
+              [Some g]: where [g old new] proposes an index list of the right length with entries in range, that
+              one is used instead ([vchoose]).  The round trip holds for EVERY guide (it only needs each new
+              element to be diffed against the old element merge copies into its slot); the theorems about the
+              choice itself (self-diff, minimality, the declarative spec) are for [guide = None].  The harness uses
+              a guide to follow an implementation whose matching of duplicate keys differs from the model's
 
     The server's values (Go-typed: int64 1 and float64 1 are different atoms) and the client's values
     (after encoding/json: one number type) are two instances; [vmap] carries a value from one to the
@@ -42,7 +48,8 @@ Record atom_ops (A : Type) : Type := mk_atom_ops {
   cmp : A -> bool;
   num : Z -> A;
   as_num : A -> option Z;
-  fix4 : bool
+  fix4 : bool;
+  guide : option (list (val A) -> list (val A) -> option (list (option nat)))
 }.
 Existing Class atom_ops.
 Arguments aeqb {A} {_} _ _.
@@ -51,6 +58,7 @@ Arguments cmp {A} {_} _.
 Arguments num {A} {_} _.
 Arguments as_num {A} {_} _.
 Arguments fix4 {A} {_}.
+Arguments guide {A} {_}.
 
 Record atom_laws {A : Type} (O : atom_ops A) : Prop := mk_atom_laws {
   aeqb_eq : forall a b, aeqb a b = true <-> a = b;
@@ -196,6 +204,22 @@ Section G.
   Definition vcompute_reorder_indices (old new : list val) : list (option nat) :=
     vreorder_go (index_from 0 (map vreorder_key old)) new.
 
+  Definition idx_in_range (len : nat) (i : option nat) : bool :=
+    match i with Some j => Nat.ltb j len | None => true end.
+
+  (** the index list diffArray works with *)
+  Definition vchoose (old new : list val) : list (option nat) :=
+    match guide with
+    | Some g =>
+        match g old new with
+        | Some idx =>
+            if Nat.eqb (List.length idx) (List.length new) && forallb (idx_in_range (List.length old)) idx
+            then idx else vcompute_reorder_indices old new
+        | None => vcompute_reorder_indices old new
+        end
+    | None => vcompute_reorder_indices old new
+    end.
+
   Definition vnum (z : Z) : val := VAtom (num z).
   Definition vnat (n : nat) : val := vnum (Z.of_nat n).
 
@@ -244,7 +268,7 @@ Section G.
     end.
 
   Definition vdiff_array (o n : list val) (subs : list (val * (val -> option val))) : option val :=
-    let idx := vcompute_reorder_indices o n in
+    let idx := vchoose o n in
     let order_changed := negb (Nat.eqb (List.length o) (List.length idx)) || negb (order_is_identity 0 idx) in
     let d := (if order_changed then [(dollar, VArr (vcompress idx))] else []) ++ vdiff_elems o 0 subs idx in
     vfinish d.
@@ -574,6 +598,7 @@ Arguments vreorder_key {A} {O} j.
 Arguments vtake_first {A} {O} k unused.
 Arguments vreorder_go {A} {O} unused new.
 Arguments vcompute_reorder_indices {A} {O} old new.
+Arguments vchoose {A} {O} old new.
 Arguments vnum {A} {O} z.
 Arguments vnat {A} {O} n.
 Arguments vencode_run {A} {O} r.
